@@ -293,3 +293,42 @@ func init() {
 }
 
 var _ = bytes.Equal
+
+func init() {
+	// balances: observation (not an invariant) - every account's uPOKT by role / module name, plus node and app records
+	chainInvariants["balances"] = func(r *replica, res *JobResult) {
+		ctx := r.ctxNow()
+		ak, nk, apk, _, _ := r.app.VerifKeepers()
+		bal := map[string]string{}
+		for _, acc := range ak.GetAllAccounts(ctx) {
+			name := roleOf(acc.GetAddress())
+			for _, m := range []string{"fee_collector", nodesTypes.StakedPoolName, appsTypes.StakedPoolName, "dao", "pos"} {
+				if bytes.Equal(ak.GetModuleAddress(m), acc.GetAddress()) {
+					name = "module:" + m
+				}
+			}
+			bal[name] = upokt(acc.GetCoins()).String()
+			if len(acc.GetCoins()) > 1 || (len(acc.GetCoins()) == 1 && acc.GetCoins()[0].Denom != sdk.DefaultStakeDenom) {
+				bal[name] = acc.GetCoins().String()
+			}
+		}
+		res.Obs["balances"] = bal
+		nodes := map[string]string{}
+		for _, v := range nk.GetAllValidators(ctx) {
+			var ds []string
+			for k, p := range v.RewardDelegators {
+				a, _ := sdk.AddressFromHex(k)
+				ds = append(ds, fmt.Sprintf("%s:%d", roleOf(a), p))
+			}
+			sort.Strings(ds)
+			nodes[roleOf(v.Address)] = fmt.Sprintf("status=%d jailed=%v tokens=%s chains=%v url=%s output=%s delegators=%v pubkey=%x unstaking=%d waiting=%v",
+				v.Status, v.Jailed, v.StakedTokens, v.Chains, v.ServiceURL, roleOf(v.OutputAddress), ds, v.PublicKey.RawBytes()[:4], v.UnstakingCompletionTime.Unix(), nk.IsWaitingValidator(ctx, v.Address))
+		}
+		res.Obs["nodes"] = nodes
+		appsM := map[string]string{}
+		for _, a := range apk.GetAllApplications(ctx) {
+			appsM[roleOf(a.Address)] = fmt.Sprintf("status=%d jailed=%v tokens=%s chains=%v maxrelays=%s pubkey=%x unstaking=%d", a.Status, a.Jailed, a.StakedTokens, a.Chains, a.MaxRelays, a.PublicKey.RawBytes()[:4], a.UnstakingCompletionTime.Unix())
+		}
+		res.Obs["apps"] = appsM
+	}
+}
